@@ -300,9 +300,17 @@ class Engine:
         if op in OPSETS:
             na, nb = as_num(a), as_num(b)
             if nb[2] == frozenset({0}) or nb[2] == frozenset({0.0}):
+                if na[1] <= OPSETS[op]:
+                    return ("bool", True)           # the sign of the value already decides the test (`job_count() == 0` with job_count = 0): a helper returning it answers a constant
+                if not (na[1] & OPSETS[op]):
+                    return ("bool", False)
                 if na[3] is not None:
                     return ("rel0", na[3], op)
             if na[2] == frozenset({0}) or na[2] == frozenset({0.0}):
+                if nb[1] <= OPSETS[FLIP[op]]:
+                    return ("bool", True)
+                if not (nb[1] & OPSETS[FLIP[op]]):
+                    return ("bool", False)
                 if nb[3] is not None:
                     return ("rel0", nb[3], FLIP[op])
             return ("unk", "bool")
